@@ -43,6 +43,7 @@ func init() {
 		return []*vexplore.Scenario{
 			{Name: "handshake-single-byte-deviation", Mode: "enum", Reset: kit.ResetGlobals, Body: hsDeviation, NeedCounters: []string{"rejected", "good-peer-after"}},
 			{Name: "refused-handshakes-in-a-row-then-a-good-peer", Mode: "enum", Reset: kit.ResetGlobals, Body: RefusedInARow, NeedCounters: []string{"good-peer-served-promptly-after-three-or-more-refusals"}},
+			{Name: "many-stalled-handshakes-then-a-good-peer", Mode: "enum", Reset: kit.ResetGlobals, Body: ManyStalled, NeedCounters: []string{"good-peer-served-beside-a-hundred-or-more-stalled-handshakes"}},
 			{Name: "handshake-truncated-or-stalled", Mode: "enum", Reset: kit.ResetGlobals, Body: hsTruncated, NeedCounters: []string{"truncated", "stalled-does-not-delay-others"}},
 			{Name: "frame-length-field", Mode: "enum", Reset: kit.ResetGlobals, Body: frameLengths, NeedCounters: []string{"too-long-dropped-at-once", "in-limit-delivered", "negative-dropped", "limit-set-after-listen"}},
 			{Name: "frame-truncated-everywhere", Mode: "enum", Reset: kit.ResetGlobals, Body: frameTruncated, NeedCounters: []string{"truncated-nothing-delivered"}},
@@ -267,6 +268,48 @@ func RefusedInARow() {
 		kit.Count("good-peer-served-promptly-after-three-or-more-refusals")
 	}
 	kit.Observe("%s %s n=%d how=%d", scheme, k.Name, n, how)
+	kit.Must("Close", func() { _ = v.x.S.Close() })
+}
+
+// ManyStalled: 1..300 peers connect and go silent 0..7 bytes into their header, all at once; then a
+// well-behaved peer connects: it is greeted, attached and served at once, however many handshakes
+// are pending; afterwards the stalled ones hang up and a further good peer is served.
+func ManyStalled() {
+	pickScheme()
+	k := kinds.ByName([]string{"pull", "rep"}[kit.ChooseFree(2)])
+	n := []int{1, 16, 127, 128, 129, 300}[kit.ChooseFree(6)]
+	v := open(k, -1)
+	hdr := spHeader(v.x.S.Info().Peer)
+	var stalled []*net.VConn
+	for i := 0; i < n; i++ {
+		h := v.ep.Connect()
+		h.Feed(hdr[:i%8])
+		stalled = append(stalled, h)
+		kit.Quiesce() // (one after the other: the scheduler offers at most 250 runnable threads at a point)
+	}
+	if v.attached != 0 {
+		kit.Failf("bad-handshake-accepted", "%s: %d connection(s) with an incomplete header were attached", k.Name, v.attached)
+	}
+	t0 := kit.Now()
+	g := v.goodPeer(fmt.Sprintf("beside %d stalled handshakes", n))
+	if d := kit.Now() - t0; d != 0 {
+		kit.Failf("good-peer-delayed-by-stalled-handshakes", "%s over %s: with %d handshakes pending a well-behaved peer had to wait %v to be attached", k.Name, scheme, n, d)
+	}
+	v.exchange(g, "beside stalled handshakes")
+	for _, h := range stalled {
+		h.EOF()
+		kit.Quiesce()
+	}
+	kit.Sleep(time.Duration(n+2) * 10 * time.Millisecond)
+	kit.Quiesce()
+	if k.Name != "pair" {
+		g2 := v.goodPeer("after the stalled peers hung up")
+		v.exchange(g2, "after the stalled peers hung up")
+	}
+	if n >= 100 {
+		kit.Count("good-peer-served-beside-a-hundred-or-more-stalled-handshakes")
+	}
+	kit.Observe("%s %s n=%d", scheme, k.Name, n)
 	kit.Must("Close", func() { _ = v.x.S.Close() })
 }
 
